@@ -79,7 +79,7 @@ func partitionPhase(run *ev.Run, deadline time.Time) map[string]interface{} {
 	alphabet = append(alphabet, pOp{Restore: "fresh"}, pOp{Restore: "used"})
 	samples := &ev.Samples{N: 3}
 	st := seq.BFS(seq.Config[*pWorld, pOp]{
-		Depth: depth, Workers: 16, Deadline: deadline,
+		Depth: depth, Workers: 16, Deadline: deadline, HangCPU: 20 * time.Second,
 		Build:   func(wi int, path []pOp) (*pWorld, string, string) { return pBuild(path) },
 		Enabled: func(w *pWorld) []pOp { return alphabet },
 		Canon:   func(w *pWorld) string { return idxlib.DumpKey(w.r.P.Index().VerifDump()) },
